@@ -125,6 +125,9 @@ func (b *bystander) probeUfs(when string) error {
 	want := map[uint32]string{21: "by", 22: "x"}
 	for _, fid := range []uint32{20, 21, 22, 23} {
 		r, err := b.C.RPC(&ref9p.Msg{Type: ref9p.Tstat, Fid: fid})
+		if err == rawc.ErrTimeout {
+			return &hangError{fmt.Sprintf("bystander not answered within %v (%s the victim's disconnect): Tstat fid %d", hangT, when, fid)}
+		}
 		if err != nil {
 			return fmt.Errorf("bystander disturbed (%s the victim's disconnect): Tstat fid %d: %v", when, fid, err)
 		}
@@ -365,12 +368,12 @@ func runUfs(c *Case, res *result) (err error) {
 			continue
 		}
 		var w *os.File
-		waitFor(quiesce, func() bool {
+		waitFor(hangT, func() bool {
 			var e error
 			w, e = os.OpenFile(f.fifo, os.O_WRONLY|syscall.O_NONBLOCK, 0)
 			return e == nil
 		})
-		k.wait(f.who, "respond.posted", 1, quiesce)
+		k.wait(f.who, "respond.posted", 1, hangT)
 		if w != nil {
 			w.Close()
 		}
@@ -388,7 +391,16 @@ func runUfs(c *Case, res *result) (err error) {
 	}
 	var left []gor
 	var why string
-	okq := waitFor(quiesce, func() bool {
+	newGors := func() []gor {
+		var out []gor
+		for id, g := range libGors() {
+			if _, old := g1[id]; !old {
+				out = append(out, g)
+			}
+		}
+		return out
+	}
+	okq := settle(func() bool {
 		if k.count(connWho(vid), "close.exit") == 0 {
 			why = "Conn.close has not finished"
 			return false
@@ -425,7 +437,7 @@ func runUfs(c *Case, res *result) (err error) {
 		}
 		why = "goroutines still serve the connection"
 		return false
-	})
+	}, newGors)
 	allowed := map[int]gor{}
 	for id, g := range g0 {
 		allowed[id] = g
@@ -480,12 +492,20 @@ func runUfs(c *Case, res *result) (err error) {
 	}
 	by.C.Close()
 	var leftBy []string
-	okb := waitFor(quiesce, func() bool {
+	okb := settle(func() bool {
 		if k.count(connWho(by.id), "close.exit") == 0 {
 			return false
 		}
 		leftBy = shorts(libGors(), allowed)
 		return len(leftBy) == 0
+	}, func() []gor {
+		var out []gor
+		for id, g := range libGors() {
+			if _, old := allowed[id]; !old {
+				out = append(out, g)
+			}
+		}
+		return out
 	})
 	if !okb {
 		return fmt.Errorf("ufs: %v after the bystander's own disconnect: goroutines left: %s", quiesce, strings.Join(leftBy, " | "))
